@@ -207,6 +207,11 @@ def dict_after_remove(snap, d, key):
     return key not in d
 
 
+def same_elements(a, b):
+    """two lists hold the same values in the same order (objects by identity, numbers by value and representation)"""
+    return len(a) == len(b) and all((x is y) or (type(x) is type(y) and same_value(x, y)) for x, y in zip(a, b))
+
+
 def same_ref(a, b):
     """identity of two object references / singletons (None, UNDEFINED, NULL)"""
     return a is b
